@@ -12,11 +12,23 @@ use tracing_core::{Event, Level, Metadata, Subscriber};
 
 thread_local! {
     static ON: Cell<bool> = const { Cell::new(false) };
+    /// the run in progress wants a subscriber that is enabled at every level (Scenario::trace_subscriber)
+    static ALL_LEVELS: Cell<bool> = const { Cell::new(false) };
     static COUNTS: RefCell<BTreeMap<&'static str, u64>> = const { RefCell::new(BTreeMap::new()) };
 }
 
 pub fn set_on(on: bool) {
     ON.with(|c| c.set(on));
+}
+
+/// A subscriber that enables every level, as an application with `RUST_LOG=trace` has: the arguments of every
+/// `tracing` macro in the subject are then evaluated. Returns the previous setting.
+pub fn set_all_levels(on: bool) -> bool {
+    ALL_LEVELS.with(|c| c.replace(on))
+}
+
+fn all_levels() -> bool {
+    ALL_LEVELS.with(|c| c.get())
 }
 
 pub fn is_on() -> bool {
@@ -51,14 +63,14 @@ struct Probe;
 
 impl Subscriber for Probe {
     fn register_callsite(&self, meta: &'static Metadata<'static>) -> Interest {
-        if (trace_all() || *meta.level() <= Level::DEBUG) && meta.target().starts_with("resolvo") {
+        if meta.target().starts_with("resolvo") {
             Interest::sometimes()
         } else {
             Interest::never()
         }
     }
     fn enabled(&self, meta: &Metadata<'_>) -> bool {
-        (trace_all() && meta.is_event()) || (is_on() && *meta.level() <= Level::DEBUG && meta.is_event())
+        meta.is_event() && (trace_all() || all_levels() || (is_on() && *meta.level() <= Level::DEBUG))
     }
     fn new_span(&self, _: &Attributes<'_>) -> Id {
         Id::from_u64(1)
@@ -66,6 +78,18 @@ impl Subscriber for Probe {
     fn record(&self, _: &Id, _: &Record<'_>) {}
     fn record_follows_from(&self, _: &Id, _: &Id) {}
     fn event(&self, event: &Event<'_>) {
+        if !trace_all() && !is_on() {
+            // enabled only because the run asked for an all-levels subscriber: format the event like a real
+            // subscriber would, count nothing
+            let mut m = Msg(String::new());
+            event.record(&mut m);
+            return;
+        }
+        if *event.metadata().level() > Level::DEBUG && !trace_all() {
+            let mut m = Msg(String::new());
+            event.record(&mut m);
+            return;
+        }
         let mut m = Msg(String::new());
         event.record(&mut m);
         let s = m.0.as_str();
